@@ -57,6 +57,14 @@ def configs(tier):
                         continue
                     for shape in ([[2]] if tier == "quick" else [[], [2]]):
                         out.append(dict(kind="vector", op=op, rhs=rhs, nvec=nvec, ua=ua, ub=ub, shape=shape))
+    # two successive in-place updates of a Vector held in two Datagroups (the second one changes the unit)
+    for nvec in (1, 2, 3):
+        for shape in ([], [2]):
+            for first, second in (("iadd", "imul"), ("imul", "imul"), ("isub", "idiv"), ("imul", "iadd")):
+                out.append(dict(kind="vector-seq", nvec=nvec, shape=shape, ops=[first, second]))
+    # strided / reversed / column slices are views too
+    for sl in ("::2", "::-1", "1::2", "col"):
+        out.append(dict(kind="strided", sl=sl))
     for what in ("array", "vector"):
         for how in ("copy", "copy.copy", "deepcopy"):
             for shape in [[], [2]]:
@@ -234,12 +242,93 @@ def body(m, cfg):
                 m.require(C.same_terms(m, m.vals(c._array), wv[i]) and C.unit_dim_ok(c.unit, db),
                           "right operand untouched", key=f"rhs-changed:{tag}")
         return
+    if kind == "vector-seq":
+        return _vector_seq(m, cfg)
+    if kind == "strided":
+        return _strided(m, cfg)
     if kind == "copies":
         return _copies(m, cfg)
     if kind == "containers":
         return _containers(m, cfg)
     if kind == "interleave":
         return _interleave(m, cfg)
+
+
+def _vector_seq(m, cfg):
+    """v op1= w1 ; v op2= w2 through one Datagroup: the Vector seen through the other Datagroup (and the original
+    reference) must show the value AND unit of the result after every step."""
+    from osyris import Array, Vector, Datagroup
+    nvec, shape, ops = cfg["nvec"], tuple(cfg["shape"]), cfg["ops"]
+    tag = f"vector-seq:{'-'.join(ops)}:n{nvec}:{C.shape_str(shape)}"
+    comps = [m.array("a" + "xyz"[i], shape, "float64") for i in range(nvec)]
+    v0 = Vector(*comps, unit="m")
+    dg1, dg2 = Datagroup(), Datagroup()
+    dg1["q"] = v0
+    dg2["q"] = v0
+    cur = [[m.t(t) for t in m.vals(c)] for c in comps]          # physical values in CGS per component
+    fa = 100.0
+    cur = [[x * fa for x in col] for col in cur]
+    dim = (1, 0, 0, 0, 0)
+    for step, op in enumerate(ops):
+        if op in ("iadd", "isub"):
+            w = Array(m.array(f"w{step}", shape, "float64"), unit=("cm" if dim == (1, 0, 0, 0, 0) else None))
+            if dim != (1, 0, 0, 0, 0):
+                from symx.core import Abort
+                raise Abort("cut: addition after a unit change needs a matching operand (not generated)")
+            wv = [m.t(t) * 1.0 for t in m.vals(w._array)]
+            cur = [[(x + y) if op == "iadd" else (x - y) for x, y in zip(col, wv)] for col in cur]
+        else:
+            w = Array(m.array(f"w{step}", shape, "float64"), unit="s")
+            wv = [m.t(t) for t in m.vals(w._array)]
+            if op == "idiv":
+                for t in wv:
+                    m.assume(m.Not(m.eq(t, 0)))
+            cur = [[(x * y) if op == "imul" else (x / y) for x, y in zip(col, wv)] for col in cur]
+            dim = U.dim_mul(dim, (0, 0, 1, 0, 0)) if op == "imul" else U.dim_mul(dim, (0, 0, -1, 0, 0))
+        if op == "iadd":
+            dg1["q"] += w
+        elif op == "isub":
+            dg1["q"] -= w
+        elif op == "imul":
+            dg1["q"] *= w
+        else:
+            dg1["q"] /= w
+        for who, vec in (("updated-reference", dg1["q"]), ("other-datagroup", dg2["q"]), ("original-reference", v0)):
+            for i, c in enumerate("xyz"[:nvec]):
+                sc = [m.abs(e) for e in cur[i]]
+                _check_updated(m, getattr(vec, c), cur[i], sc, dim, f"{tag}:step{step + 1}:{c}", who)
+
+
+def _strided(m, cfg):
+    from osyris import Array
+    sl = cfg["sl"]
+    tag = f"strided:{sl}"
+    if sl == "col":
+        a = Array(m.array("a", (2, 2), "float64"), unit="m")
+        s = a[:, 1]
+        idx = [1, 3]
+    else:
+        a = Array(m.array("a", (4,), "float64"), unit="m")
+        key = {"::2": slice(None, None, 2), "::-1": slice(None, None, -1), "1::2": slice(1, None, 2)}[sl]
+        s = a[key]
+        idx = list(range(4))[key]
+    m.require(np.shares_memory(np.asarray(s._array), np.asarray(a._array)), "a strided / reversed / column slice is a view of the same data",
+              key=f"view-shares:{tag}")
+    before = [m.t(t) for t in m.vals(a._array)]
+    k = Array(m.array("k", tuple(s.shape), "float64"), unit="m")
+    kv = [m.t(t) for t in m.vals(k._array)]
+    s += k
+    after = [m.t(t) for t in m.vals(a._array)]
+    fs = []
+    for pos in range(len(before)):
+        if pos in idx:
+            fs.append(m.close(after[pos], before[pos] + kv[idx.index(pos)], scale=m.abs(before[pos]) + 1))
+        else:
+            fs.append(m.close(after[pos], before[pos], exact=True))
+    m.check("an in-place update through the slice is seen in the Array (and only there)", m.And(fs), key=f"view-writes-through:{tag}")
+    a *= 2.0
+    m.check("an in-place update of the Array is seen through the slice",
+            m.And([m.close(x, y, exact=True) for x, y in zip(m.vals(s._array), [m.vals(a._array)[i] for i in idx])]), key=f"view-reads-through:{tag}")
 
 
 def _copy_of(obj, how):
